@@ -185,7 +185,7 @@ func (g *gen) random(n int) {
 	hosts := deeplinks.ReservedHosts()
 	for i := 0; i < n; i++ {
 		var sb strings.Builder
-		switch g.r.Intn(4) {
+		switch g.r.Intn(5) {
 		case 0: // pure alphabet soup
 			l := g.r.Intn(12)
 			for j := 0; j < l; j++ {
@@ -202,6 +202,27 @@ func (g *gen) random(n int) {
 			}
 		case 2: // random bytes incl. non-UTF-8 and control characters
 			sb.Write(g.r.Bytes(g.r.Intn(8)))
+		case 4: // reserved host + path over the full byte range: >=0x80, NUL/control, %-escapes, long runs
+			sb.WriteString(g.r.Pick([]string{"", "http://", "https://"}))
+			if len(hosts) > 0 {
+				sb.WriteString(g.r.Pick(hosts))
+			}
+			sb.WriteString(g.r.Pick([]string{"/", "/joinchat/", ":443/", "/a/"}))
+			switch g.r.Intn(5) {
+			case 0:
+				sb.Write(g.r.Bytes(1 + g.r.Intn(6)))
+			case 1:
+				sb.WriteString(g.r.Pick([]string{"%2F", "%2f", "%00", "%ff", "%C3%28", "%", "%4", "%zz", "%25", "a%2Fb%2Fc", "%E2%80%AE", "%20"}))
+				sb.WriteString(g.r.Pick([]string{"", "x", "/x"}))
+			case 2:
+				sb.WriteString(strings.Repeat(g.r.Pick([]string{"a", "Z", "\u0130", "\u1e9e", "\u212a", "%41", "\x80"}), 1+g.r.Intn(70000)/(1+g.r.Intn(2000))))
+			case 3:
+				sb.WriteString(g.r.Pick([]string{"\x00", "\t", "\n", "\r\n", "\x7f", "\x1b[0m", " "}))
+				sb.WriteString(g.r.Pick([]string{"", "durov"}))
+			case 4:
+				sb.WriteString(g.r.Pick([]string{"\u0130stanbul", "STRASSE\u1e9e", "\u212aelvin", "\u01c5", "\ufb01", "\xc3", "\xed\xa0\x80", "\xf4\x90\x80\x80"}))
+			}
+			sb.WriteString(g.r.Pick([]string{"", "", "?start=%ff", "#\x00"}))
 		case 3: // prefix of a host (bare, truncated)
 			h := "t.me"
 			if len(hosts) > 0 {
